@@ -169,3 +169,60 @@ end
 def defsInSubset (defs : Defs) : Bool := Schema.propsInSubset defs
 
 end Dcg.Sem
+
+namespace Dcg.Sem
+open Dcg.Model.Constraints
+
+/-- Validity up to the exemption in the property text of C04: `null` given for a member that is
+not required does not count as a violation. Everything else as `validJ`. -/
+def validJN (re : Regex) : Nat → Defs → Schema → Json → Bool
+  | 0, _, _, _ => false
+  | f + 1, defs, s, v =>
+    match s with
+    | .any => true
+    | .null => v.isNull
+    | .scalar ty nullable b => (nullable && v.isNull) || validScalar re ty b v
+    | .enum vals => vals.any (fun a => a.matches v)
+    | .const a => a.matches v
+    | .array items mn mx =>
+      match v with
+      | .arr xs => lenOK mn mx xs.length && xs.all (fun x => validJN re f defs items x)
+      | _ => false
+    | .object props req addl =>
+      match v with
+      | .obj kvs =>
+        req.all (fun k => hasKey kvs k) &&
+        props.all (fun p => match kvs.lookup p.1 with
+          | some x => (!req.contains p.1 && x.isNull) || validJN re f defs p.2 x
+          | none => true) &&
+        (addl != .forbid || kvs.all (fun kv => (props.map (·.1)).contains kv.1))
+      | _ => false
+    | .dict value =>
+      match v with
+      | .obj kvs => kvs.all (fun kv => validJN re f defs value kv.2)
+      | _ => false
+    | .ref n =>
+      match defs.lookup n with
+      | some t => validJN re f defs t v
+      | none => false
+    | .anyOf alts => alts.any (fun a => validJN re f defs a v)
+    | .oneOf alts => countTrue (alts.map (fun a => validJN re f defs a v)) == 1
+
+mutual
+/-- no `oneOf` anywhere (a `Union` accepts when two alternatives match; `oneOf` does not) -/
+def Schema.oneOfFree : Schema → Bool
+  | .array items _ _ => items.oneOfFree
+  | .object props _ _ => Schema.propsOneOfFree props
+  | .dict value => value.oneOfFree
+  | .anyOf alts => Schema.allOneOfFree alts
+  | .oneOf _ => false
+  | _ => true
+def Schema.propsOneOfFree : List (List Char × Schema) → Bool
+  | [] => true
+  | p :: ps => p.2.oneOfFree && Schema.propsOneOfFree ps
+def Schema.allOneOfFree : List Schema → Bool
+  | [] => true
+  | s :: ss => s.oneOfFree && Schema.allOneOfFree ss
+end
+
+end Dcg.Sem
